@@ -111,6 +111,21 @@ func (h *chunkHeartbeat) Marshal() ([]byte, error) {
 	return h.chunkHeader.marshal()
 }
 
+// marshal implements the chunk interface. Without it the embedded chunkHeader.marshal was
+// used when a packet was built, which emitted a HEARTBEAT with an empty body.
+func (h *chunkHeartbeat) marshal() ([]byte, error) {
+	if len(h.params) == 0 {
+		// a HEARTBEAT without info is accepted by unmarshal; keep it encodable.
+		h.chunkHeader.typ = ctHeartbeat
+		h.chunkHeader.flags = 0
+		h.chunkHeader.raw = nil
+
+		return h.chunkHeader.marshal()
+	}
+
+	return h.Marshal()
+}
+
 func (h *chunkHeartbeat) check() (abort bool, err error) {
 	return false, nil
 }
